@@ -13,6 +13,9 @@ import (
 )
 
 type Exec struct {
+	fmtParent    map[*FmtStr]*FmtStr
+	fmtOf        map[string]*FmtStr
+	posOf        map[string]FmtPos
 	coverDone    map[*AtSpec]bool
 	cntDeclared  map[string]bool
 	eng          *Engine
@@ -123,6 +126,12 @@ func (x *Exec) bind(v Val, base string) Val {
 	}
 	n := x.u.fresh(base, v.S)
 	x.u.fact("(= " + n + " " + v.T + ")")
+	if f, ok := x.fmtOf[v.T]; ok {
+		x.setFmt(n, f)
+	}
+	if p, ok := x.posOf[v.T]; ok {
+		x.setPos(n, p)
+	}
 	return Val{T: n, S: v.S, Ty: v.Ty}
 }
 
